@@ -5,7 +5,7 @@
      which every directory that holds a module has an __init__.py (the graph has project modules only); the former
      witness of F62 (a namespace package analysed with the options of `pyscn check`) now has Python's graph. *)
 From Coq Require Import NArith List Bool Arith Lia.
-From PV Require Import Deps.PyImport Deps.Imports Deps.ImportsOpt Deps.ImportsOptRun Deps.ImportsProofs Deps.ImportsAgree Gen.ImportsConst.
+From PV Require Import Deps.PyImport Deps.Imports Deps.ImportsWf Deps.ImportsOpt Deps.ImportsOptRun Deps.ImportsProofs Deps.ImportsAgree Gen.ImportsConst.
 Import ListNotations.
 
 Lemma fold_left_ext : forall {A B} (f g : A -> B -> A) l a,
@@ -330,6 +330,24 @@ Lemma namespace_cycle_found :
   edges_model_o default_opts w_namespace = [([1; 2], [1; 3]); ([1; 3], [1; 2])]%N /\
   edges_py w_namespace = [([1; 2], [1; 3]); ([1; 3], [1; 2])]%N /\
   edges_model_o check_opts w_namespace = edges_py w_namespace.
+Proof. repeat split; vm_compute; reflexivity. Qed.
+
+(* the graph `pyscn check --select deps` builds (include_third_party = false) is the graph of `pyscn analyze`, for every
+   project and file order; with the unbounded theorem: it is Python's graph for every well-formed project *)
+Theorem check_graph_is_analyze_graph : forall pr order,
+  AnalyzeFiles_o check_opts pr order = AnalyzeFiles_o default_opts pr order.
+Proof. intros pr order. apply include_third_party_irrelevant; reflexivity. Qed.
+
+Theorem check_edges_wf : forall pr, star_free pr = true -> wf_project pr = true ->
+  same_edges (edges_model_o check_opts pr) (edges_py pr) = true.
+Proof.
+  intros pr Hs Hw. unfold edges_model_o. rewrite check_graph_is_analyze_graph, (AnalyzeFiles_o_default pr pr Hs).
+  apply edges_wf. exact Hw.
+Qed.
+
+(* namespace packages are inside the well-formedness predicate now *)
+Lemma wf_admits_namespace :
+  wf_project w_namespace = true /\ project_shape_strict w_namespace = false /\ star_free w_namespace = true.
 Proof. repeat split; vm_compute; reflexivity. Qed.
 
 (* ---- witnesses of the other two recorded deviations of the second part ------------------------------ *)
